@@ -259,6 +259,8 @@ def configs(tier: str) -> List[Cfg]:
             for db in dbs:
                 if "iter" in pk and db.startswith("Forest"):
                     continue
+                if tier == "quick" and pk in ("sfac", "rfac3") and db not in ("RuleDB", "Forest"):
+                    continue  # the queue is the same object under every rule database
                 res.append(Cfg.of(c.with_(stats=st), pk, db))
     if tier != "quick":
         for c in classes:
@@ -427,7 +429,8 @@ def expansion_configs(tier: str) -> List[Cfg]:
     classes = dw.start_classes("quick")
     packs = ["ver:a,b", "ver:e,a", "ver2:a>ab"] if tier == "quick" else ["ver:a,b", "ver:e,a", "ver:e", "ver:b,ab", "ver:a,b+inf1", "ver:a,b+sym", "ver2:a>ab", "ver2:e>a", "ver2:e,b>a,ba"]
     stats = [()] if tier == "quick" else [(), ("a", "ab")]
-    return [Cfg.of(c.with_(stats=st), pk, db) for c in classes for st in stats for pk in packs for db in DBS]
+    dbs = ("RuleDB", "Forest") if tier == "quick" else DBS  # the database of the *original* search
+    return [Cfg.of(c.with_(stats=st), pk, db) for c in classes for st in stats for pk in packs for db in dbs]
 
 
 def _worker_expansion(arg) -> Acc:
